@@ -43,9 +43,11 @@ func (v *Value) UnmarshalNBT(tagType byte, r nbt.DecoderReader) error {
 		n, err := readInt32(r)
 		if err != nil {
 			return err
+		} else if n < 0 {
+			return errNegativeLength
 		}
 
-		v.data = append(v.data[:0], make([]byte, 4+n)...)
+		v.data = append(v.data[:0], make([]byte, 4+int(n))...)
 		binary.BigEndian.PutUint32(v.data, uint32(n))
 
 		_, err = io.ReadFull(r, v.data[4:])
@@ -57,9 +59,11 @@ func (v *Value) UnmarshalNBT(tagType byte, r nbt.DecoderReader) error {
 		n, err := readInt16(r)
 		if err != nil {
 			return err
+		} else if n < 0 {
+			return errNegativeLength
 		}
 
-		v.data = append(v.data[:0], make([]byte, 2+n)...)
+		v.data = append(v.data[:0], make([]byte, 2+int(n))...)
 		binary.BigEndian.PutUint16(v.data, uint16(n))
 
 		_, err = io.ReadFull(r, v.data[2:])
@@ -113,9 +117,11 @@ func (v *Value) UnmarshalNBT(tagType byte, r nbt.DecoderReader) error {
 		n, err := readInt32(r)
 		if err != nil {
 			return err
+		} else if n < 0 {
+			return errNegativeLength
 		}
 
-		v.data = append(v.data[:0], make([]byte, 4+n*4)...)
+		v.data = append(v.data[:0], make([]byte, 4+int(n)*4)...)
 		binary.BigEndian.PutUint32(v.data, uint32(n))
 
 		_, err = io.ReadFull(r, v.data[4:])
@@ -127,9 +133,11 @@ func (v *Value) UnmarshalNBT(tagType byte, r nbt.DecoderReader) error {
 		n, err := readInt32(r)
 		if err != nil {
 			return err
+		} else if n < 0 {
+			return errNegativeLength
 		}
 
-		v.data = append(v.data[:0], make([]byte, 4+n*8)...)
+		v.data = append(v.data[:0], make([]byte, 4+int(n)*8)...)
 		binary.BigEndian.PutUint32(v.data, uint32(n))
 
 		_, err = io.ReadFull(r, v.data[4:])
@@ -183,6 +191,8 @@ func readString(r nbt.DecoderReader) (string, error) {
 	}
 	return str, err
 }
+
+var errNegativeLength = errors.New("dynbt: negative length")
 
 type decodeErr struct {
 	decoding string
